@@ -210,3 +210,81 @@ func TestC13ConcurrentFlush(t *testing.T) {
 		ev.Case(len(model) > 0, evid.Hash("concflush", n, readers, fmt.Sprint(cfg), fmt.Sprint(qs)), "concurrent-flush")
 	})
 }
+
+// TestC14Backlog: a burst of several hundred mutations with a slow Key function (the
+// index task queue fills up and the writer blocks on it); the query-change callbacks
+// must still run exactly once per key-changing mutation, in mutation order per id.
+func TestC14Backlog(t *testing.T) {
+	ev := evid.For("C14")
+	rapid.Check(t, func(rt *rapid.T) {
+		cfg := Cfg{Prefix: rapid.SampledFrom([]string{"", "pfx"}).Draw(rt, "prefix"), Indexes: []string{"ia", "ib"}, SlowKey: 2}
+		n := rapid.IntRange(280, 400).Draw(rt, "burst")
+		m, err := newMachine(cfg)
+		if err != nil {
+			rt.Fatalf("VERIF-INCONCLUSIVE: %v", err)
+		}
+		defer m.cleanup()
+		model := map[string]Rec{}
+		want := map[string][][2]string{}
+		for i := 0; i < n; i++ {
+			op := Op{ID: rapid.SampledFrom(idAlpha[:3]).Draw(rt, "id"), A: rapid.SampledFrom([]string{"a", "b", "ab", "aa", "ba", "~nil", ""}).Draw(rt, "a"), B: rapid.SampledFrom([]string{"a", "b"}).Draw(rt, "b")}
+			old, exists := model[op.ID]
+			switch {
+			case !exists:
+				op.K = "create"
+			case rapid.IntRange(0, 9).Draw(rt, "del") == 0:
+				op.K = "delete"
+			default:
+				op.K = "update"
+			}
+			if err := m.mutate(op); err != nil {
+				rt.Fatalf("mutation %d %+v failed: %v", i, op, err)
+			}
+			var before, after *Rec
+			if exists {
+				o := old
+				before = &o
+			}
+			if op.K == "delete" {
+				delete(model, op.ID)
+			} else {
+				nr := Rec{A: op.A, B: op.B}
+				model[op.ID] = nr
+				after = &nr
+			}
+			changed := false
+			for _, idx := range cfg.Indexes {
+				if string(keyOf(idx, before)) != string(keyOf(idx, after)) || (keyOf(idx, before) == nil) != (keyOf(idx, after) == nil) {
+					changed = true
+				}
+			}
+			if changed {
+				var b, a interface{}
+				if before != nil {
+					b = *before
+				}
+				if after != nil {
+					a = *after
+				}
+				want[op.ID] = append(want[op.ID], [2]string{recJSON(b), recJSON(a)})
+			}
+		}
+		m.qs.Flush()
+		m.mu.Lock()
+		got := map[string][][2]string{}
+		for _, r := range m.qclog {
+			got[r.ID] = append(got[r.ID], [2]string{r.Before, r.After})
+		}
+		m.mu.Unlock()
+		for _, id := range idAlpha[:3] {
+			if fmt.Sprint(got[id]) != fmt.Sprint(want[id]) {
+				k := 0
+				for k < len(got[id]) && k < len(want[id]) && got[id][k] == want[id][k] {
+					k++
+				}
+				rt.Fatalf("id %q: after a burst of %d mutations the query-change callbacks ran %d times, %d key-changing mutations were made; first difference at position %d (callbacks must run once per key-changing mutation, in mutation order per id)", id, n, len(got[id]), len(want[id]), k)
+			}
+		}
+		ev.Case(true, evid.Hash("c14backlog", n, cfg.Prefix), "backlog")
+	})
+}
